@@ -56,3 +56,38 @@ fn vecs(p: vec3<i32>, q: vec3<i32>) -> vec3<i32> { return p + q; }
 		},
 	})
 }
+
+// H10: without hlsl.Options.SpecialConstantsBinding, @builtin(num_workgroups)
+// is silently given the semantic SV_GroupID (the workgroup id) instead of being
+// rejected or routed through a constant buffer.  The test asserts that the
+// defect is still present.
+func TestNagaHLSLNumWorkgroupsWithoutConstants(t *testing.T) {
+	m, err := lowerWGSL(outU + `@compute @workgroup_size(1) fn main(@builtin(num_workgroups) nwg: vec3<u32>, @builtin(workgroup_id) wid: vec3<u32>) {
+  o[wid.x] = nwg.x * 10u + nwg.y;
+}`)
+	if err != nil {
+		t.Fatal(err)
+	}
+	txt, _, err := compileHLSLModule(m, hlslOptions(hlslConfigs[0], "main", nil))
+	if err != nil {
+		t.Skipf("naga now rejects num_workgroups without a constants binding: %v", err)
+	}
+	p, err := Parse(HLSL, txt)
+	if err != nil {
+		t.Fatalf("%v\n%s", err, numbered(txt))
+	}
+	out := zeros(12)
+	res, err := p.Run(RunConfig{Buffers: map[Slot][]byte{{Class: 'u', Index: 0}: out}, NumWorkgroups: [3]uint32{3, 1, 1}, StepLimit: 10000})
+	if err != nil || res.Trap != "" {
+		t.Fatalf("%v %+v", err, res)
+	}
+	got := words32(out)
+	if got[0] == 31 && got[1] == 31 && got[2] == 31 {
+		t.Fatalf("defect H10 no longer observed: move this case to the passing set\n%s", numbered(txt))
+	}
+	sem := ""
+	for _, prm := range p.HLSLEntryPoints()[0].Params {
+		sem += prm.Name + ":" + prm.Semantic + " "
+	}
+	t.Logf("suspected naga defect still present: num_workgroups read as %v (want 31 31 31); parameters: %s", got, sem)
+}
